@@ -434,6 +434,7 @@ type node struct {
 	vv       *cluster.VerifView
 	cur      []int // per shard: id of the update its own Raft currently reports, -1 = shard not hosted
 	override []dragonboat.ShardInfo
+	ovRead   bool // the override list was read by the code under test
 	reach    []bitset // per shard: ids of the updates that reached this node
 	inc      []fold   // per shard: fold kept incrementally (fold of folds)
 	seq      []uint64 // per shard: order-sensitive hash of the arrival sequence
@@ -472,6 +473,7 @@ type world struct {
 	replicas map[[2]uint64]map[uint64]string
 	slots    map[int]*payload
 	step     int
+	ctx      string // entry point of the code under test currently being called
 }
 
 func (w *world) fail(oracle, sig, f string, a ...any) { w.out.Fail(prop, oracle, sig, w.step, f, a...) }
@@ -546,7 +548,9 @@ func firstRepoFrame(stack string) string {
 
 // guard runs a call into code under test and turns a panic into a violation.
 func (w *world) guard(what string, f func()) (ok bool) {
+	w.ctx = what
 	defer func() {
+		w.ctx = ""
 		if r := recover(); r != nil {
 			st := string(debug.Stack())
 			w.fail("panic", "panic:"+what+"@"+firstRepoFrame(st), "panic in %s: %v\n%s", what, r, st)
@@ -597,12 +601,14 @@ func (w *world) reachUpd(nd, id int, explicit bool) {
 	n.lastRecv = w.step
 }
 
-// refresh: the code under test read the node's own Raft information.
-func (w *world) refresh(nd int, via string) {
+// refresh: the code under test just read the node's own Raft information (called
+// from the information source itself, so the model does not assume which entry
+// points read it): whatever the source reports now has reached the node.
+func (w *world) refresh(nd int) {
 	n := w.nodes[nd]
 	for _, id := range n.cur {
 		if id >= 0 {
-			if via == "localstate" && !n.reach[w.ups[id].Shard].has(id) {
+			if w.ctx == "LocalState" && !n.reach[w.ups[id].Shard].has(id) {
 				w.out.Probe("local-info-first-read-by-localstate")
 			}
 			w.reachUpd(nd, id, false)
@@ -921,8 +927,10 @@ func Exec(s core.Schedule) *core.Outcome {
 		nd := nd
 		n.vv = cluster.VerifNewView(func() cluster.Info {
 			if n.override != nil {
+				n.ovRead = true
 				return cluster.Info{ShardInfoList: n.override}
 			}
+			w.refresh(nd)
 			var l []dragonboat.ShardInfo
 			for _, id := range n.cur {
 				if id >= 0 {
@@ -966,7 +974,6 @@ func Exec(s core.Schedule) *core.Outcome {
 			if !w.guard("Notify", func() { n.vv.Notify() }) {
 				break
 			}
-			w.refresh(st.Node, "notify")
 		case "notify":
 			if st.Node < 0 || st.Node >= w.N {
 				continue
@@ -974,7 +981,6 @@ func Exec(s core.Schedule) *core.Outcome {
 			if !w.guard("Notify", func() { w.nodes[st.Node].vv.Notify() }) {
 				break
 			}
-			w.refresh(st.Node, "notify")
 		case "gossip", "capture":
 			if st.From < 0 || st.From >= w.N {
 				continue
@@ -983,7 +989,6 @@ func Exec(s core.Schedule) *core.Outcome {
 			if !w.guard("LocalState", func() { buf = w.nodes[st.From].vv.Delegate().LocalState(false) }) {
 				break
 			}
-			w.refresh(st.From, "localstate")
 			p := w.snapshot(st.From, buf)
 			if st.Op == "capture" {
 				w.slots[st.Slot] = p
@@ -1018,10 +1023,13 @@ func Exec(s core.Schedule) *core.Outcome {
 				for _, u := range ups {
 					l = append(l, w.info(st.To, u))
 				}
-				n.override = l
+				n.override, n.ovRead = l, false
 				ok := w.guard("Notify", func() { n.vv.Notify() })
 				n.override = nil
 				if !ok {
+					break
+				}
+				if !n.ovRead { // nothing was handed over
 					break
 				}
 				w.out.Probe("inject-via-notify")
